@@ -1,8 +1,8 @@
 package rules
 
 import (
-	"go/token"
 	"fmt"
+	"go/token"
 	"golang.org/x/tools/go/ssa"
 	"verifcheck/internal/prog"
 	"verifcheck/internal/report"
@@ -478,4 +478,45 @@ func skipsBlock(fn *ssa.Function, b *ssa.BasicBlock) string {
 		line = fn.Prog.Fset.Position(skip.Instrs[i].Pos()).Line
 	}
 	return "through the block ending at line " + fmt.Sprint(line)
+}
+
+// PARTFOUND (C15): the traversal behind ForEachService / WithSelectedServices tolerates a name that is not an
+// enabled service when it is an optional dependency, and goes on with the services that were found. The lookup it
+// ranges over must therefore hand back what it found together with the names it did not find: no return of that
+// helper yields a nil service map. (Returning nothing as soon as one name is missing drops the siblings of an
+// optional dependency on a disabled service, and their dependencies with them.)
+func (c *Ctx) PARTFOUND(rule string) []report.Obligation {
+	f := c.P.Func("types.(*Project).withServices")
+	if f == nil {
+		return []report.Obligation{anchorViolation(rule, "types.(*Project).withServices")}
+	}
+	var out []report.Obligation
+	n := 0
+	for _, l := range findMapLoops(f) {
+		ex, ok := l.rng.X.(*ssa.Extract)
+		if !ok || ex.Index != 0 {
+			continue
+		}
+		call, ok := ex.Tuple.(*ssa.Call)
+		if !ok {
+			continue
+		}
+		h := call.Call.StaticCallee()
+		if h == nil || !c.P.InModule(h) || h.Blocks == nil {
+			continue
+		}
+		n++
+		good, pos := true, c.P.Pos(h.Pos())
+		for _, r := range returnsOf(h) {
+			if prog.IsNilConst(retValue(r, 0)) {
+				good, pos = false, c.P.InstrPos(r)
+			}
+		}
+		out = append(out, verdict(good, rule, "withServices :: the services found are returned whatever else is missing", pos,
+			"no return of "+c.P.FuncID(h)+" yields a nil service map", c.P.FuncID(h)+" returns no services at all on some path: withServices, which only refuses required names, then skips the services that were found (the siblings of an optional dependency on a disabled service, and everything they depend on)"))
+	}
+	if n == 0 {
+		out = append(out, bad(rule, "withServices :: lookup of the named services", c.P.Pos(f.Pos()), "withServices does not range over the result of a lookup helper: the rule sees nothing"))
+	}
+	return out
 }
